@@ -160,7 +160,7 @@ pub fn run_session(case: &Value) -> Value {
             break;
         }
     }
-    json!({"id": case["id"], "cmds": recs, "anomalies": anomalies})
+    json!({"id": case["id"], "cmds": recs, "anomalies": anomalies, "big": case["big"].as_bool().unwrap_or(false)})
 }
 
 /// Expand a session carrying {"sweep": {"cmd": i, "max": M, "inspect": bool}} into one session per
